@@ -35,7 +35,9 @@ RULE = ("Hypothesis: real-basis expressions = 1-3 terms of rational "
 BUDGET = {"quick": 75, "thorough": 2400}
 N_EXAMPLES = {"quick": 6, "thorough": 80}
 CASE_TIMEOUT = {"quick": 30, "thorough": 600}
-ASSUMPTIONS = ["RE residual intermediates (which factor to a placeholder "
+ASSUMPTIONS = ["RuntimeError 'Ambiguous signs' raised by the fraction "
+               "algebra's own validation is a refusal (as in C13)",
+               "RE residual intermediates (which factor to a placeholder "
                "'Zero' that only vanishes on-shell) are not requested"]
 
 # name, kind, upper spaces, lower spaces, bra-ket symmetry
@@ -187,6 +189,10 @@ def strategy(tier):
     return st_case(tier)
 
 
+class AmbiguousSigns(Exception):
+    pass
+
+
 ITM = Intermediates().available
 COMPOSITE = {"t2eri1": "t2eri_1", "t2eri2": "t2eri_2", "t2eri3": "t2eri_3",
              "t2eri4": "t2eri_4", "t2eri5": "t2eri_5", "t2eri6": "t2eri_6",
@@ -284,7 +290,18 @@ def run_case(case):
     refusals = (NotImplementedError,)
     if req.startswith("factor"):
         refusals += (RuntimeError,)
-    ok, out = lib_call(r, req, pipeline, refusals=refusals)
+    # the fraction algebra refuses brackets in which the occupied (virtual)
+    # orbital energies do not share one sign (RuntimeError 'Ambiguous signs',
+    # the library's own validation, cf. C13)
+    def guarded():
+        try:
+            return pipeline()
+        except RuntimeError as exc:
+            if "Ambiguous signs" in str(exc):
+                raise AmbiguousSigns(str(exc)) from None
+            raise
+    refusals += (AmbiguousSigns,)
+    ok, out = lib_call(r, req, guarded, refusals=refusals)
     if not ok:
         return r
     for attempt in range(4):
